@@ -229,6 +229,35 @@ fn concat_events(rate: f64, rng: &mut StdRng, out: &mut Vec<Value>) {
     }
 }
 
+/// hvcat of r x c block grids (1..3 block rows and columns), mostly with consistent block heights / widths
+fn grid_events(rng: &mut StdRng, tries: usize, out: &mut Vec<Value>) {
+    for _ in 0..tries {
+        let (nr, nc) = (rng.gen_range(1..=3usize), rng.gen_range(1..=3usize));
+        let hs: Vec<usize> = (0..nr).map(|_| rng.gen_range(0..=2)).collect();
+        let ws: Vec<usize> = (0..nc).map(|_| rng.gen_range(0..=2)).collect();
+        let bad = rng.gen::<f64>() < 0.15;
+        let mut grid: Vec<Vec<CscMatrix<f64>>> = vec![];
+        for i in 0..nr {
+            let mut row = vec![];
+            for j in 0..nc {
+                let (mut h, mut w) = (hs[i], ws[j]);
+                if bad && rng.gen::<f64>() < 0.3 { if rng.gen::<bool>() { h += 1; } else { w += 1; } }
+                let cells = h * w;
+                let mask = if cells == 0 { 0 } else { rng.gen::<u32>() & ((1u32 << cells) - 1) };
+                row.push(build(h, w, mask, 0));
+            }
+            grid.push(row);
+        }
+        out.push(guarded("hvcatg", || {
+            let rows: Vec<Vec<&CscMatrix<f64>>> = grid.iter().map(|r| r.iter().collect()).collect();
+            let refs: Vec<&[&CscMatrix<f64>]> = rows.iter().map(|r| r.as_slice()).collect();
+            let r = CscMatrix::hvcat(&refs);
+            json!({"name": "hvcatg", "blocks": grid.iter().map(|r| r.iter().map(enc).collect::<Vec<_>>()).collect::<Vec<_>>(),
+                   "ok": r.is_ok(), "out": r.map(|x| enc(&x)).unwrap_or(enc(&CscMatrix::zeros((0, 0))))})
+        }));
+    }
+}
+
 /// quick: seeded sample; thorough: everything
 pub fn record(seed: u64, thorough: bool) -> (Vec<Value>, Value) {
     let mut rng = StdRng::seed_from_u64(seed);
@@ -253,8 +282,16 @@ pub fn record(seed: u64, thorough: bool) -> (Vec<Value>, Value) {
         triplet_events(3, 3, 4, 0, 1.0, &mut rng, &mut out);
         triplet_events(3, 3, 5, 1, 0.2, &mut rng, &mut out);
         triplet_events(2, 3, 5, 0, 1.0, &mut rng, &mut out);
+        triplet_events(4, 2, 4, 0, 1.0, &mut rng, &mut out);      // tall shapes (rows > columns)
+        triplet_events(5, 2, 3, 1, 1.0, &mut rng, &mut out);
+        triplet_events(4, 1, 4, 0, 1.0, &mut rng, &mut out);
+        grid_events(&mut rng, 20000, &mut out);
     } else {
         triplet_events(2, 3, 4, 0, 0.5, &mut rng, &mut out);
+        triplet_events(4, 2, 3, 0, 1.0, &mut rng, &mut out);      // tall shapes (rows > columns)
+        triplet_events(5, 2, 3, 1, 0.2, &mut rng, &mut out);
+        triplet_events(4, 1, 4, 0, 0.5, &mut rng, &mut out);
+        grid_events(&mut rng, 1500, &mut out);
         triplet_events(3, 3, 5, 1, 0.01, &mut rng, &mut out);
     }
     let ntrip = out.len() - before;
